@@ -67,6 +67,8 @@ cfg_64!(
 
         let mut c: u8;
         let mut idx = 0;
+        #[cfg(num_bigint_verif)]
+        crate::verif_probe::hit(crate::verif_probe::Probe::ADD_ASM_BLOCK);
 
         asm!(
             // Clear the carry flag
@@ -172,12 +174,24 @@ pub(super) fn __add2(a: &mut [BigDigit], b: &[BigDigit]) -> BigDigit {
     let (c, done) = (false, 0);
 
     let mut carry = c as u8;
+    #[cfg(num_bigint_verif)]
+    if c && done < b.len() {
+        crate::verif_probe::hit(crate::verif_probe::Probe::ADD_TAIL_WITH_CARRY);
+    }
+    #[cfg(num_bigint_verif)]
+    if c {
+        crate::verif_probe::hit(crate::verif_probe::Probe::ADD_ASM_CARRY_OUT);
+    }
 
     for (a, b) in a_lo[done..].iter_mut().zip(b[done..].iter()) {
         carry = adc(carry, *a, *b, a);
     }
 
     if carry != 0 {
+        #[cfg(num_bigint_verif)]
+        if !a_hi.is_empty() {
+            crate::verif_probe::hit(crate::verif_probe::Probe::ADD_PROPAGATE_HI);
+        }
         for a in a_hi {
             carry = adc(carry, *a, 0, a);
             if carry == 0 {
@@ -216,6 +230,8 @@ impl AddAssign<&BigUint> for BigUint {
     fn add_assign(&mut self, other: &BigUint) {
         let self_len = self.data.len();
         let carry = if self_len < other.data.len() {
+            #[cfg(num_bigint_verif)]
+            crate::verif_probe::hit(crate::verif_probe::Probe::ADD_SELF_SHORTER);
             let lo_carry = __add2(&mut self.data[..], &other.data[..self_len]);
             self.data.extend_from_slice(&other.data[self_len..]);
             __add2(&mut self.data[self_len..], &[lo_carry])
@@ -223,6 +239,8 @@ impl AddAssign<&BigUint> for BigUint {
             __add2(&mut self.data[..], &other.data[..])
         };
         if carry != 0 {
+            #[cfg(num_bigint_verif)]
+            crate::verif_probe::hit(crate::verif_probe::Probe::ADD_GROW);
             self.data.push(carry);
         }
     }
